@@ -146,12 +146,12 @@ def _check(case, d):
     os.makedirs(os.path.join(work, "sub"))
     # model file
     if kind == "corpus":
-        src = os.path.join("/repo/tests/odefiles", case["file"])
+        src = os.path.join(B.REPO, "tests/odefiles", case["file"])
         fname = os.path.join(work, case["file"])
         shutil.copy(src, fname)
     elif kind == "cellml":
         fname = os.path.join(work, case["file"])
-        shutil.copy(os.path.join("/repo/tests/cellml_files", case["file"]), fname)
+        shutil.copy(os.path.join(B.REPO, "tests/cellml_files", case["file"]), fname)
     else:
         fname = os.path.join(work, "model.ode")
         if kind != "missing":
@@ -219,7 +219,7 @@ def _check(case, d):
     before = snapshot(work)
     env = dict(os.environ)
     env["PATH"] = "/venv/bin" + os.pathsep + env.get("PATH", "")
-    env["PYTHONPATH"] = "/repo/src"
+    env["PYTHONPATH"] = B.REPO_SRC
     env["PYTHONHASHSEED"] = "0"
     env["PYTHONWARNINGS"] = "ignore"
     try:
